@@ -29,7 +29,7 @@ use std::sync::atomic::{AtomicU64, Ordering};
 use std::sync::Arc;
 use std::time::Duration;
 
-pub const RULE_C13: &str = "Each run draws one world from the tape (arch x86/amd64/arm/arm64, OS, 1-6 modules with shared leaf names and consistent / absent symbol files incl. CFI programs with aliased registers, 1-8 threads (occasionally 31-40, reaching FuturesUnordered) with frame-pointer chains / CFI-walkable / scan-only stacks, exception, thread names, unloaded modules, memory info, handles, Linux text streams incl. /proc/limits with several entries, MemoryList or Memory64List) and one processor option set, then executes the same world 3-6 times, each execution on a fresh thread with its own hash seed and its own schedule: per-module supplier delay (0-3 gates on the simulated clock) or HTTP chunking and latencies, executor policy, spurious-poll probability, 0-2 companion tasks processing the same dump through the same symbolizer; with the HTTP supplier, executions after the first alternate between a fresh cache and the run's shared, already filled cache (served-from-cache must render the same as downloaded). Execution 0 is the plain schedule (everything ready, FIFO, hash seed 0). All executions must render byte-identical JSON, pretty JSON, text and brief text. NON-TRIVIAL iff the world has at least two threads and at least two executions had different decision traces. DISTINCT = distinct (world digest, multiset of execution decision traces) among non-trivial runs.";
+pub const RULE_C13: &str = "Each run draws one world from the tape (arch x86/amd64/arm/arm64, OS, 1-6 modules with shared leaf names and consistent / absent symbol files incl. CFI programs with aliased registers, 1-8 threads (occasionally 31-40, reaching FuturesUnordered) with frame-pointer chains / CFI-walkable / scan-only stacks, exception, thread names, unloaded modules, memory info, handles, Linux text streams incl. /proc/limits with several entries, MemoryList or Memory64List) and one processor option set, then executes the same world 3-6 times, each execution on a fresh thread with its own hash seed and its own schedule: per-module supplier delay (0-3 gates on the simulated clock) or HTTP chunking and latencies, executor policy, spurious-poll probability, 0-2 companion tasks processing the same dump through the same symbolizer; with the HTTP supplier, executions after the first alternate between a fresh cache and the run's shared, already filled cache (served-from-cache must render the same as downloaded); executions after the first may run on a thread that has already processed and rendered an unrelated 32- or 64-bit dump. Execution 0 is the plain schedule (everything ready, FIFO, hash seed 0). All executions must render byte-identical JSON, pretty JSON, text and brief text. NON-TRIVIAL iff the world has at least two threads and at least two executions had different decision traces. DISTINCT = distinct (world digest, multiset of execution decision traces) among non-trivial runs.";
 
 pub const RULE_C03: &str = "Each run draws one world as for C13 but with adversarial shapes enabled (cyclic / descending / extreme frame pointers, sp at 0 / 4 / 2^64-1 / outside the stack, stack at the top of the address space, CFI that makes no progress or never reads memory, hostile STACK WIN sizes, short /proc/limits lines, memory-info ranges ending at 2^64-1, exception parameters up to 15, code bytes at the crashing ip) and hostile symbol files (corrupted, random grammar, unterminated), one option set of {stable_basic, stable_all, unstable_all}, an optional storage fault on the serialised dump (torn tail, lost or stale 512/4096-byte sector, bit rot, header bit flip), symbol supply through the gated supplier or the real HTTP supplier with 404/5xx/connect error/reset/clean cut/stall+timeout/corrupt cache entry, and an optional companion task that is cancelled mid-way. Oracles: no panic; executor steps, provider calls and frames per thread within budgets tied to the input size; peak live heap within 256 MiB + (16 KiB x permitted frames + 4096 x input bytes) per concurrent processing; Ok state always renders as text, brief text, JSON and pretty JSON, the JSON parses, and rendering into a failing writer returns without panicking. NON-TRIVIAL iff the dump was accepted (processing returned a state) and at least one fault (storage, supply, hostile symbols, adversarial shape) was present. DISTINCT = distinct (world digest, fault description, decision trace) among non-trivial runs.";
 
@@ -232,6 +232,9 @@ pub struct ExecMode {
     pub companions: u32,
     /// HTTP mode: use (and fill) the run's shared cache directory instead of a fresh one.
     pub use_warm_cache: bool,
+    /// The executing thread first processes and renders another, unrelated dump (0 = none,
+    /// 1 = a 32-bit one, 2 = a 64-bit one): a long-lived worker thread has a history.
+    pub previous_job: u8,
 }
 
 /// Runs inside a sub-execution (own thread, own context).  Every decision comes from the
@@ -378,6 +381,21 @@ pub fn execute(shared: Shared, mode: ExecMode, stack_budget: u64, nthreads: u64)
     let problems: Rc<RefCell<(Option<String>, Option<String>, Option<String>)>> = Rc::new(RefCell::new((None, None, None)));
     let writer_plan = if mode.faults && chance("e4.writer_fault", 1, 3) { Some((range("e4.writer.fail_at", 0, 20_000) as usize, chance("e4.writer.short", 1, 2))) } else { None };
 
+    if mode.previous_job > 0 {
+        // the thread's history: process and render an unrelated dump first (results discarded)
+        probe("e4.previous_job");
+        let bytes = dumpgen::tiny_dump(mode.previous_job == 2);
+        let mut pre = Exec::new(simkit::ExecConfig::default());
+        pre.spawn("previous job", async move {
+            if let Ok(d) = Minidump::read(bytes) {
+                let sym = Symbolizer::new(breakpad_symbols::SimpleSymbolSupplier::new(vec![]));
+                if let Ok(state) = minidump_processor::process_minidump(&d, &sym).await {
+                    let _ = render(&state);
+                }
+            }
+        });
+        let _ = pre.run(|_, _| Ok(()));
+    }
     let mut ex = Exec::new(cfg);
     let mut task_ids = Vec::new();
     for slot in 0..=mode.companions as usize {
@@ -579,7 +597,7 @@ pub fn run_c13() -> Outcome {
     let result = (|| -> simkit::Check {
         for i in 0..nexec {
             let sh = shared.clone();
-            let mode = ExecMode { faults: false, companions: if i == 0 { 0 } else { companions }, use_warm_cache: use_http && i >= 1 && (i == 1 || chance("c13.warm_cache", 1, 2)) };
+            let mode = ExecMode { faults: false, companions: if i == 0 { 0 } else { companions }, use_warm_cache: use_http && i >= 1 && (i == 1 || chance("c13.warm_cache", 1, 2)), previous_job: if i == 0 { 0 } else { ch("c13.previous_job", 3) as u8 } };
             let verbose = simkit::with_ctx(|c| c.verbose);
             let rep = simkit::runner::run_sub_nested("c13.exec", i as u64, i == 0, verbose, move || execute(sh, mode, stack_budget, nthreads));
             for (k, v) in &rep.probes {
@@ -867,7 +885,7 @@ pub fn run_c03() -> Outcome {
     let verbose = simkit::with_ctx(|c| c.verbose);
     let rep = simkit::runner::run_sub_nested("c03.exec", 0, false, verbose, move || {
         simkit::alloc::set_cap(4usize << 30);
-        execute(sh, ExecMode { faults: true, companions, use_warm_cache: false }, stack_budget, nthreads)
+        execute(sh, ExecMode { faults: true, companions, use_warm_cache: false, previous_job: 0 }, stack_budget, nthreads)
     });
     for (k, v) in &rep.probes {
         simkit::probe_add(k, *v);
@@ -996,7 +1014,7 @@ pub fn run_c12_pipeline() -> Outcome {
         warm_root: None,
     };
     let companions = ch("c12p.companions", 3);
-    let out = execute(shared, ExecMode { faults: false, companions, use_warm_cache: false }, world.total_stack_bytes, world.threads.len() as u64);
+    let out = execute(shared, ExecMode { faults: false, companions, use_warm_cache: false, previous_job: 0 }, world.total_stack_bytes, world.threads.len() as u64);
     probe("e2.pipeline");
     let info = json!({"scenario": "process_minidump (real join_all of real walkers) over the gated supplier", "world": world.describe, "companions": companions, "steps": out.steps, "supplier_calls": out.per_key.values().map(|v| v.0).sum::<u32>(), "distinct_modules_asked": out.per_key.len(), "pending": [out.pending.0, out.pending.1]});
     let result = (|| -> simkit::Check {
